@@ -148,7 +148,7 @@ def case_from_line(elt, line, family="corpus"):
     kind = toks[0]
     sig = operand_kinds(kind)
     ops = [parse_z(elt, t) if s == 'z' else parse_s(elt, t) for s, t in zip(sig, toks[1:])]
-    return mk(elt, kind, ops, family, exact_bits=(".pair." in kind or kind.startswith("cx.pair")))
+    return mk(elt, kind, ops, family)
 
 def case_from_json(j):
     return case_from_line(j["elt"], j["line"])
@@ -288,8 +288,8 @@ def generate(rng, tier):
         for t in range(M):
             z = zf(g); w = zf_nz(g) if op == "div" else zf(g)
             r = rf_nz(g) if op == "div" else rf(g)
-            cases.append(mk('cplx', "cx.pair." + op, [z, w], "cplx-pair", exact_bits=True))
-            cases.append(mk('cplx', "cx.pair.r." + op, [z, r], "cplx-pair-real", exact_bits=True))
+            cases.append(mk('cplx', "cx.pair." + op, [z, w], "cplx-pair"))
+            cases.append(mk('cplx', "cx.pair.r." + op, [z, r], "cplx-pair-real"))
             if t % 2 == 0:
                 cases.append(mk('cplx', "cx.bin." + op, [zf(g), zf_nz(g) if op == "div" else zf(g)], "cplx-single"))
                 cases.append(mk('cplx', "cx.asg." + op, [zf(g), zf_nz(g) if op == "div" else zf(g)], "cplx-single"))
@@ -299,12 +299,12 @@ def generate(rng, tier):
             for t in range(M):
                 z, w = cancelling(g, op)
                 if in_range('cplx', [z, w]):
-                    cases.append(mk('cplx', "cx.pair." + op, [z, w], "cplx-cancelling", exact_bits=True))
+                    cases.append(mk('cplx', "cx.pair." + op, [z, w], "cplx-cancelling"))
     for t in range(M):
         z = zf(g)
         for k in ("neg", "conj", "abs_sqr", "abs", "sabs", "ident"):
             cases.append(mk('cplx', "cx." + k, [z], "cplx-unary"))
-        cases.append(mk('cplx', "cx.pair.rmul", [rf(g), zf(g)], "cplx-left-scalar", exact_bits=True))
+        cases.append(mk('cplx', "cx.pair.rmul", [rf(g), zf(g)], "cplx-left-scalar"))
         if t % 4 == 0:
             cases.append(mk('cplx', "cx.rmul", [rf(g), zf(g)], "cplx-left-scalar"))
             cases.append(mk('cplx', "cx.clone", [z], "cplx-unary"))
@@ -318,16 +318,23 @@ def generate(rng, tier):
         cases.append(mk('cplx', "cx.cmp3", zs, "cplx-order-triples"))
         if t % 2 == 0:
             cases.append(mk('cplx', "cx.cmp", zs[:2], "cplx-order-pairs"))
-    # non-finite, overflowing and subnormal operands: model-vs-implementation only (outside the accuracy claim)
+    # non-finite, overflowing and subnormal operands.  The accuracy claim and the ordering claim exclude them
+    # (non-overflowing range; NaN-free values), so there is no model-vs-implementation comparison here (term = None:
+    # a rewrite that behaves differently only outside the range must stay quiet); what the property states without
+    # a range -- the assignment form is bit-identical to the binary form -- is still searched on them, and the
+    # ordering is tied and searched on NaN-free operands (infinities, huge, subnormal, signed zeros).
     g = rng.fork("extreme")
     for t in range(M):
         op = ("add", "sub", "mul", "div")[t % 4]
-        cases.append(mk('cplx', "cx.pair." + op, [zx(g), zx(g)], "cplx-extreme", exact_bits=True))
-        cases.append(mk('cplx', "cx.pair.r." + op, [zx(g), g.choice(EXTREME)], "cplx-extreme", exact_bits=True))
-        if t % 2 == 0:
-            cases.append(mk('cplx', "cx.cmp", [zx(g), zx(g)], "cplx-extreme"))
-            for k in ("neg", "conj", "abs_sqr", "abs", "sabs"):
-                cases.append(mk('cplx', "cx." + k, [zx(g)], "cplx-extreme"))
+        for c in (mk('cplx', "cx.pair." + op, [zx(g), zx(g)], "cplx-extreme-forms"),
+                  mk('cplx', "cx.pair.r." + op, [zx(g), g.choice(EXTREME)], "cplx-extreme-forms"),
+                  mk('cplx', "cx.pair.rmul", [g.choice(EXTREME), zx(g)], "cplx-extreme-forms")):
+            c.term = None
+            cases.append(c)
+        zs = [zx(g) for _ in range(3)]
+        if all(x == x for z in zs for x in z):
+            cases.append(mk('cplx', "cx.cmp3", zs, "cplx-extreme-order"))
+            cases.append(mk('cplx', "cx.cmp", zs[:2], "cplx-extreme-order"))
     return cases
 
 # ----------------------------------------------------------------------------- oracle (independent reference)
@@ -377,6 +384,13 @@ def reference(kind, ops):
     if k == "rmul": return [c_mul(emb(o[0]), o[1])]
     return None
 
+def okey(x):
+    """a component as a key of the usual order of the extended reals (exact; -0.0 = 0.0)"""
+    if isinstance(x, Fraction): return (0, x)
+    if x == math.inf: return (1, Fraction(0))
+    if x == -math.inf: return (-1, Fraction(0))
+    return (0, Fraction(x))
+
 def items_values(elt, items):
     """decode an answer stream into exact scalars (Fractions; None for non-finite floats)"""
     out = []
@@ -403,9 +417,9 @@ def oracle(case, items):
     # ---- ordering and equality
     if k in ("cmp", "cmp3"):
         if panicked: return "comparison panicked: %r" % (items[-1],)
-        if not all(is_fin(x) for z in ops for x in z):
-            return None                                  # NaN/inf operands: outside the statement (tie only)
-        key = [fz_(z) for z in ops]
+        if not all(x == x for z in ops for x in z):
+            return None                                  # NaN operands: outside the statement ("NaN-free values")
+        key = [tuple(okey(x) for x in z) for z in ops]
         bits = [it[1] for it in items]
         if k == "cmp":
             z, w = key
@@ -445,9 +459,10 @@ def oracle(case, items):
     except RefDivZero:
         if elt == 'crat':
             return None if panicked else "division by zero was answered instead of refused: %r" % (items,)
-        return None                                      # f64: inf/NaN results, outside the non-overflowing range
+        if panicked: return "f64 division panicked"
+        return pair_bits(kind, ops, items) if k.startswith("pair.") else None   # f64: inf/NaN results, outside the range
     if exp is None:
-        if ".pair" in "." + k and elt == 'cplx' and not panicked:
+        if k.startswith("pair.") and elt == 'cplx' and not panicked:
             return pair_bits(kind, ops, items)           # bit identity of the forms is demanded for every operand
         return None
     if panicked:
@@ -470,7 +485,7 @@ def oracle(case, items):
             if not close_enough(got, e, 0 if exactk else ACC):
                 return "%s %s: result %d is %s, the exact value is %s (normwise error above 8*2^-53)" % (
                     kind, ops, idx, [None if x is None else float(x) for x in got], [float(x) for x in e])
-    if ".pair" in "." + k:
+    if k.startswith("pair."):
         return pair_bits(kind, ops, items)
     return None
 
